@@ -100,6 +100,18 @@ class Result:
                     pass
         return vals
 
+    def printed_json(self):
+        """Values printed as PrintT(ToJson(v)): one JSON string per line (atomic even with many workers)."""
+        import json
+        vals = []
+        for line in self.out.splitlines():
+            if line.startswith('"[') or line.startswith('"{'):
+                try:
+                    vals.append(json.loads(json.loads(line)))
+                except Exception:
+                    pass
+        return vals
+
     def coverage(self):
         """action name -> (distinct states found via it, states generated via it) from -coverage output."""
         cov = {}
